@@ -196,5 +196,7 @@ pub fn run(ctx: &mut Ctx) {
     for (i, feats) in [0u64, (1 << 28) | (1 << 29)].iter().enumerate() {
         ctx.tr.scenario(&format!("c07-input-adversarial-{}", i)); input_adversarial(ctx, *feats, n);
         ctx.tr.scenario(&format!("c07-input-id-sweep-{}", i)); input_id_sweep(ctx, *feats);
+        // the same driver in lock-step with Model/Input.v (lines 1960..1962) and under monitors 1970 / 1971
+        ctx.tr.scenario(&format!("c07-input-wild-{}", i)); crate::scen::c19::input_wild(ctx, *feats, n);
     }
 }
